@@ -17,6 +17,7 @@ import BufrModel.Drv.CacheOp
 import BufrModel.Drv.CompilerOp
 import BufrModel.Drv.TableDefOp
 import BufrModel.Drv.FlatOp
+import BufrModel.Drv.LinksOp
 open Lean Bufr.Drv
 
 /-- stateless operations: one line per op -/
@@ -34,6 +35,7 @@ def statelessOps : List (String × (Json → J Json)) :=
   ("subset", opSubset) ::
   ("normalize", opNormalize) ::
   ("cache", opCache) ::
+  ("links-spec", opLinksSpec) ::
   []
 
 /-- operations that read or change the driver state -/
@@ -55,6 +57,7 @@ def statefulOps : List (String × (DrvState → Json → J (DrvState × Json))) 
   ("build-src", TD.opBuildSrc) ::
   ("dec-data-flat", opDecDataFlat) ::
   ("col-parse", opColParse) ::
+  ("wf-bitmap", opWfBitmap) ::
   []
 
 def dispatch (st : DrvState) (j : Json) : J (DrvState × Json) := do
